@@ -290,14 +290,17 @@ public:
         std::string k = u8(sys);
         for (size_t i = 0; i < cs->ents.size(); i++) if (cs->ents[i].first == k) {
             d.side("SRV\t" + esc(sys));
-            if (chunkEnts) return new (mm) ChunkSource(cs->ents[i].second, chunk, sys, mm);
-            MemBufInputSource* s = new (mm) MemBufInputSource((const XMLByte*)cs->ents[i].second.data(), cs->ents[i].second.size(), sys, false, mm);
+            InputSource* s;
+            if (chunkEnts) s = new (mm) ChunkSource(cs->ents[i].second, chunk, sys, mm);
+            else s = new (mm) MemBufInputSource((const XMLByte*)cs->ents[i].second.data(), cs->ents[i].second.size(), sys, false, mm);
+            if (!entEnc.empty()) s->setEncoding(entEnc.c_str());     // encoding forced by the application on a resolver-supplied source
             return s;
         }
         if (resMiss == "empty" && !joining) { static const XMLByte z[1] = { 0 }; return new (mm) MemBufInputSource(z, 0, sys, false, mm); }
         return 0;
     }
     bool joining;
+    xstr entEnc;
     InputSource* resolveEntity(const XMLCh* const pub, const XMLCh* const sys) {
         d.side("RES\tsax\t" + esc(pub) + "\t" + esc(sys) + "\t~\t~");
         cb();
@@ -533,6 +536,7 @@ static void runStep(Session& S, const Case& c, const Step& st, size_t idx) {
     r.wantLoc = optb(o, "loc", true);
     r.tp = ThrowPlan(); r.tp.at = atol(opts(o, "throw_at", "0").c_str()); r.tp.kind = opts(o, "throw_kind", "sax");
     r.chunk = ChunkSpec::parse(opts(o, "chunk", "")); r.chunkEnts = optb(o, "chunkents", false);
+    r.entEnc = u16(opts(o, "entenc", ""));
     tlHooks.reset();
     gOut.line("S\t" + itos((long long)idx));
     std::string op = opts(o, "op", "parse");
